@@ -53,6 +53,9 @@ partial def loop (h : IO.FS.Stream) (prop : String) (hs : List (String × Handle
         IO.println s!"ORACLE-FAIL {p} {n} {cs} :: {d}"
         st := { st with oracleFails := st.oracleFails + 1 }
       | none => pure ()
+      for (p, d) in v.more do
+        IO.println s!"ORACLE-FAIL {p} {n} {cs} :: {d}"
+        st := { st with oracleFails := st.oracleFails + 1 }
       loop h prop hs st
 
 def main (args : List String) : IO UInt32 := do
